@@ -36,14 +36,6 @@ theorem merge_places_contents_partial (env : Env) (off : Bool) (pre : Fs) (es : 
 
 /-! non-vacuity: a concrete merge that satisfies every hypothesis and succeeds — a directory kept, a file
 replaced through its `'#new'` sibling, a second name hard-linked, a symlink and a missing parent created -/
-def exPre : Fs :=
-  ⟨[([], 1, ⟨.dir, 0o755, 0, 0, 0⟩), (["d"], 2, ⟨.dir, 0o700, 0, 0, 0⟩),
-    (["f", "d"], 3, ⟨.file "6f6c64", 0o600, 0, 0, 1000⟩), (["u"], 4, ⟨.file "75", 0o644, 7, 7, 5⟩)], 5⟩
-def exEs : List Entry :=
-  [⟨["f", "d"], .reg "6e6577" (some (1, 5)), 0o644, 0, 0, 77⟩, ⟨["d"], .dir, 0o755, 3, 4, 9⟩,
-   ⟨["g", "d"], .reg "6e6577" (some (1, 5)), 0o644, 0, 0, 77⟩, ⟨["l", "n", "m"], .sym "../../d/f", 0o777, 0, 0, 8⟩]
-def exEnv : Env := ⟨0o022, 0, 0⟩
-
 example : (mergeContents exEnv true exEs exPre).2.isOk = true ∧
     DistinctLocs exEs ∧ NoTmpClash exEs ∧ TreeShaped exEs ∧ NoSymOverDir exPre exEs ∧ HardlinkConsistent exEs ∧
     SymAtDirSolo exPre exEs ∧ RootGuard true exPre exEs ∧
